@@ -222,19 +222,6 @@ class Scenario:
     def saveDatabaseOutput(self) -> None:  # noqa: C901
         """Save Truth, Estimate, and Observation data to the output database."""
         # Grab `TruthEphemeris` for targets & sensors
-        if not self.database.getData(
-            Query(Epoch).filter(
-                Epoch.timestampISO == self.clock.datetime_epoch.isoformat(timespec="microseconds"),
-            ),
-            multi=False,
-        ):
-            self.database.insertData(
-                Epoch(
-                    julian_date=self.clock.julian_date_epoch,
-                    timestampISO=self.clock.datetime_epoch.isoformat(timespec="microseconds"),
-                ),
-            )
-
         output_data = [tgt.getCurrentEphemeris() for tgt in self.target_agents.values()]
         output_data.extend(sensor.getCurrentEphemeris() for sensor in self.sensor_agents.values())
 
@@ -282,9 +269,14 @@ class Scenario:
         # Rows made on steps that were not output steps refer to those steps' epochs. The clock only
         #   pre-populates the epochs of the configured time span, so a run continued beyond it has
         #   to add them here, like the current epoch above.
+        # [NOTE]: Rows made on earlier (non-output) timesteps may refer to epochs that have no row yet when the
+        #   run continues beyond the configured stop time. Epoch rows are inserted in chronological order:
+        #   those first, the current epoch last.
         known_epochs = {self.clock.julian_date_epoch}
-        for row in output_data:
-            if (row_jd := getattr(row, "julian_date", None)) is None or row_jd in known_epochs:
+        for row_jd in sorted(
+            {jd for row in output_data if (jd := getattr(row, "julian_date", None)) is not None},
+        ):
+            if row_jd in known_epochs:
                 continue
             known_epochs.add(row_jd)
             if not self.database.getData(
@@ -298,6 +290,19 @@ class Scenario:
                         timestampISO=row_datetime.isoformat(timespec="microseconds"),
                     ),
                 )
+
+        if not self.database.getData(
+            Query(Epoch).filter(
+                Epoch.timestampISO == self.clock.datetime_epoch.isoformat(timespec="microseconds"),
+            ),
+            multi=False,
+        ):
+            self.database.insertData(
+                Epoch(
+                    julian_date=self.clock.julian_date_epoch,
+                    timestampISO=self.clock.datetime_epoch.isoformat(timespec="microseconds"),
+                ),
+            )
 
         # Commit data to output DB
         self.database.bulkSave(output_data)
